@@ -84,18 +84,28 @@ class Resolver:
             if loc is not None:
                 return loc
             # local alias: x = partial(f, ...) / x = connector.decorator(f)
-            for a in ast.walk(fn.node):
-                if isinstance(a, ast.Assign) and len(a.targets) == 1 and isinstance(a.targets[0], ast.Name) \
-                        and a.targets[0].id == node.id and isinstance(a.value, ast.Call):
-                    r = self.unwrap_callable(m, a.value, fn, depth + 1)
-                    if r is not None:
-                        return r
+            for v_ in self._call_assigns(fn).get(node.id, ()):
+                r = self.unwrap_callable(m, v_, fn, depth + 1)
+                if r is not None:
+                    return r
         r = self.idx.resolve_expr(m, node) if isinstance(node, (ast.Name, ast.Attribute)) else None
         if isinstance(r, FuncInfo):
             return r
         if isinstance(r, tuple) and r[0] == "expr":
             return self.unwrap_callable(r[1], r[2], None, depth + 1)
         return None
+
+    def _call_assigns(self, fn: FuncInfo) -> Dict[str, List[ast.Call]]:
+        """name -> the call expressions it is bound to in the function (computed once per function)."""
+        key = id(fn.node)
+        cache = self.__dict__.setdefault("_call_assign_cache", {})
+        if key not in cache:
+            d: Dict[str, List[ast.Call]] = {}
+            for a in ast.walk(fn.node):
+                if isinstance(a, ast.Assign) and len(a.targets) == 1 and isinstance(a.targets[0], ast.Name) and isinstance(a.value, ast.Call):
+                    d.setdefault(a.targets[0].id, []).append(a.value)
+            cache[key] = d
+        return cache[key]
 
     def local_defs(self, fn: FuncInfo) -> Dict[str, FuncInfo]:
         key = id(fn.node)
